@@ -841,7 +841,8 @@ var shapes = []shape{
 			cond = "(T1{A: i} == T1{A: 2 + (a & 1)})"
 		}
 		label, cont := "", ""
-		if g.n(3) == 0 {
+		// the jump over i == 2 would keep the equality of the composite literal variant from ever holding
+		if g.n(3) == 0 && !strings.Contains(cond, "T1{A: i}") {
 			label = "L:\n\t"
 			cont = "\t\tif i == 1 {\n\t\t\ti += 2\n\t\t\tcontinue L\n\t\t}\n"
 		}
